@@ -297,10 +297,21 @@ def check(ctx):
                    "without the stream being handed to the transport: the dequeued messages are lost", key="handoff")
         ctx.count("handoff_paths", sum(len(v) for v in classes.values()))
     # the stream is attached only when the previous one has been picked up (transport not in write mode)
-    cfg = make_cfg(repo, snd.node)
-    dom = cfg.dominators()
-    hands = [nd for nd in cfg.nodes.values() if any(call_name(c).endswith("_set_selector_events_mask") and len(c.args) > 1 for c in node_calls(nd))]
-    for hn in hands:
+    attach_sites = [(snd, None)]
+    for fi_ in funcs.values():
+        # any other function of the connection layer that attaches a stream to the selector key is held to the same guard
+        if fi_ is snd or fi_.mod.name == "bromelia.transport":
+            continue
+        if any(call_name(c).endswith("_set_selector_events_mask") and (len(c.args) > 1 or any(k.arg in ("msg", "data") for k in c.keywords))
+               for c in fn_calls(fi_.node)):
+            attach_sites.append((fi_, "other"))
+    ctx.count("stream_attach_functions", len(attach_sites))
+    for afi, akind in attach_sites:
+      cfg = make_cfg(repo, afi.node)
+      dom = cfg.dominators()
+      hands = [nd for nd in cfg.nodes.values() if any(call_name(c).endswith("_set_selector_events_mask") and
+                                                      (len(c.args) > 1 or any(k.arg in ("msg", "data") for k in c.keywords)) for c in node_calls(nd))]
+      for hn in hands:
         okg = False
         for d in dom[hn.id]:
             dn = cfg.nodes[d]
@@ -325,7 +336,7 @@ def check(ctx):
                         reach_f |= seen
                     if hn.id not in reach_f:
                         okg = True
-        ctx.decide(okg, "R-DOM/handoff-guard", snd.qual, snd.where(hn.ast),
+        ctx.decide(okg, "R-DOM/handoff-guard", afi.qual, afi.where(hn.ast),
                    "the stream is attached only under `not transport.is_write_mode()`",
                    "the serialised stream is attached to the selector key without a dominating `not self.transport.is_write_mode()` "
                    "test: the single data slot may still hold the previous stream, which is silently replaced - the earlier batch of "
@@ -379,6 +390,32 @@ def check(ctx):
     ok = bool(mods) and all("TcpConnection.lock" in lf.must_at(nid) for q, nid, lf in mods)
     ctx.decide(ok, "R-LOCKSET", "TcpConnection.selector.modify", "bromelia/transport.py", "every selector.modify runs under TcpConnection.lock",
                "selector.modify is called without TcpConnection.lock", key="modify_lock")
+    # the mask, the selector registration and the mode events change together: every write of events_mask and every set/clear of
+    # the mode events happens inside the region that holds TcpConnection.lock (the send path polls is_write_mode() without a
+    # lock; it may act on a mask value only once the registration that goes with it is in place - otherwise it attaches the next
+    # stream and the pending modify(.., data=None) of the transport thread wipes it)
+    mask_sites = []
+    for q, lf in flows.items():
+        if funcs[q].name == "__init__":
+            continue
+        for nid, nd in lf.cfg.nodes.items():
+            if nd.kind == "stmt" and isinstance(nd.ast, (ast.Assign, ast.AugAssign)):
+                tg = nd.ast.targets if isinstance(nd.ast, ast.Assign) else [nd.ast.target]
+                if any(isinstance(t, ast.Attribute) and t.attr == "events_mask" for t in tg):
+                    mask_sites.append((q, nid, lf, "events_mask"))
+            for c in node_calls(nd):
+                cn_ = call_name(c)
+                if cn_.rsplit(".", 1)[-1] in ("set", "clear") and cn_.rsplit(".", 2)[-2:-1] and cn_.rsplit(".", 2)[-2] in ("write_mode_on", "read_mode_on") \
+                        and funcs[q].name == "_set_selector_events_mask":
+                    mask_sites.append((q, nid, lf, cn_))
+    unlocked = [(q.rsplit(".", 1)[-1], lf.cfg.nodes[nid].lineno, what) for q, nid, lf, what in mask_sites if "TcpConnection.lock" not in lf.must_at(nid)]
+    ctx.decide(bool(mask_sites) and not unlocked, "R-LOCKSET/mask-atomic", "TcpConnection.events_mask", "bromelia/transport.py",
+               f"all {len(mask_sites)} writes of the mask / mode events run under TcpConnection.lock, in the region of the selector.modify",
+               f"the events mask or a mode event is written outside TcpConnection.lock ({unlocked[:4]}): the send path, which polls "
+               f"is_write_mode() without a lock, can see the new mask before the selector registration that goes with it is made and "
+               f"attach the next stream - the pending selector.modify(.., data=None) then wipes it: the batch is never written",
+               key="mask_atomic")
+    ctx.count("mask_write_sites", len(mask_sites))
     # hand-off and enqueue are serialised by the association lock
     for qn in ("put_message_into_send_queue", "send_message_from_queue"):
         q = f"bromelia.setup.DiameterAssociation.{qn}"
